@@ -5,8 +5,8 @@
 (* so earlier requests are the "history" (cache contents) of later ones.   *)
 EXTENDS Pipeline, Json
 
-CONSTANTS ExtChoice,   \* which extension lists: "small" | "full"
-          ReqChoice    \* which request alphabet: "small" | "full"
+CONSTANTS ExtChoice,   \* which extension lists: "one" | "small" | "full"
+          ReqChoice    \* which request alphabet: "sched3" | "small" | "full"
 
 All  == [pm |-> TRUE,  cm |-> TRUE,  oi |-> TRUE,  ri |-> TRUE,  rf |-> TRUE,  fi |-> TRUE]
 Icpt == [pm |-> FALSE, cm |-> FALSE, oi |-> TRUE,  ri |-> TRUE,  rf |-> TRUE,  fi |-> TRUE]
@@ -15,7 +15,8 @@ FiO  == [pm |-> FALSE, cm |-> FALSE, oi |-> FALSE, ri |-> FALSE, rf |-> FALSE, f
 Mix  == [pm |-> TRUE,  cm |-> FALSE, oi |-> TRUE,  ri |-> TRUE,  rf |-> FALSE, fi |-> FALSE]
 
 ExtLists ==
-  IF ExtChoice = "small" THEN {<<All>>, <<Icpt, Muts>>}
+  IF ExtChoice = "one" THEN {<<All>>}
+  ELSE IF ExtChoice = "small" THEN {<<All>>, <<Icpt, Muts>>}
   ELSE {<<>>, <<All, All>>, <<Icpt, Muts>>, <<All, FiO, Mix>>, <<Mix, Muts, Icpt>>}
 
 Caches == {[ck |-> "none", cn |-> 0], [ck |-> "map", cn |-> 0], [ck |-> "lru", cn |-> 1], [ck |-> "lru", cn |-> 2]}
@@ -41,7 +42,11 @@ Alphabet(exts) ==
                 P("QS", "ok",   "found",    "good", NoRej, <<"data", "nil">>, R2) }  \* subscription: one event, then end
       rejs == { P("Q1", "ok", "found", "good", [k |-> h, i |-> i], <<"data">>, R1) :
                   h \in {"pm", "cm"}, i \in {j \in 1..Len(exts) : exts[j]["pm"] \/ exts[j]["cm"]} }
-  IN  IF ReqChoice = "small" THEN core ELSE core \cup more \cup rejs
+      few  == { P("Q1", "ok",  "found",    "good", NoRej, <<"data">>, R1),
+                P("Q2", "ok",  "found",    "good", NoRej, <<"data">>, R2),
+                P("Q1", "ok",  "notfound", "good", NoRej, <<"data">>, R1),
+                P("QU", "unk", "found",    "good", NoRej, <<"data">>, R2) }
+  IN  IF ReqChoice = "small" THEN core ELSE IF ReqChoice = "sched3" THEN few ELSE core \cup more \cup rejs
 
 MCInit ==
   \E c \in Cfgs :
